@@ -316,6 +316,63 @@ func TestVerifC03(t *testing.T) {
 		rep.Distinct++
 	}
 
+	// ---- A5 (real time, outside the bubble: a client that deadlocks on one of its own mutexes would stall virtual time): a
+	// sender's SetReadDeadline (inFlightUp) fails while the reader sits between unregistering a response's call and
+	// inFlightDown. Both calls must be completed: the answered one is the reader's to deliver.
+	for _, batched := range []bool{false, true} {
+		name := fmt.Sprintf("A5/deadline-op-fails-in-sender-while-reader-holds-a-response/batched=%v", batched)
+		func() {
+			var failNext atomic.Bool
+			hook := func(op verifsim.Op) *verifsim.Fault {
+				if op.Kind == verifsim.OpReadDeadline && !op.Time.IsZero() && failNext.CompareAndSwap(true, false) {
+					return &verifsim.Fault{Err: verifsim.ErrInjected}
+				}
+				return nil
+			}
+			opts := rcOpts{queueSize: 1, hook: hook}
+			if batched {
+				opts = rcOpts{queueSize: 2, flushInterval: time.Millisecond, hook: hook}
+			}
+			env := newRCEnv(opts)
+			c1 := env.newCall("a5x", "get", batched)
+			env.goQueue(c1)
+			var req *verifsim.Request
+			select {
+			case req = <-env.reqs:
+			case <-time.After(5 * time.Second):
+				rep.bad("harness:a5", "%s: the first request never reached the server", name)
+				return
+			}
+			g := env.gates.arm("recv.unregistered")
+			if batched {
+				env.respondMulti(req, multiPlan{})
+			} else {
+				env.respondOK(req, 1, false)
+			}
+			select {
+			case <-g.parked:
+			case <-time.After(5 * time.Second):
+				rep.bad("harness:a5", "%s: the reader never reached recv.unregistered", name)
+				return
+			}
+			failNext.Store(true)
+			c2 := env.newCall("a5y", "get", batched)
+			env.goQueue(c2)
+			for i := 0; i < 400 && !env.isDone(); i++ { // the sender's deadline operation failed and it failed the client
+				time.Sleep(5 * time.Millisecond)
+			}
+			close(g.release)
+			time.Sleep(300 * time.Millisecond)
+			env.quiesce()
+			o.flush(name, env)
+			// tear down without waiting for goroutines a defective client leaves blocked
+			env.c.Close()
+			env.srv.Close()
+			close(env.stop)
+		}()
+		rep.Distinct++
+	}
+
 	// ---- B: k-th operation fails
 	flavours := []string{"w0", "whalf", "eof", "reset", "deadline", "close"}
 	for wi, w := range c03workloads {
